@@ -239,3 +239,28 @@ func TestGvcAdapterStartTLSWriteError(t *testing.T) {
 	}
 	fmt.Printf("NOT-REPRODUCED StartTLS write error: err=%v\n", err)
 }
+
+// A voluntary feature that requires a stream restart (e.g. STARTTLS without
+// <required/>) and nothing else advertised: the session must not be reported
+// ready before the stream has been restarted with a fresh header.
+func TestGvcAdapterReadyWithoutRestart(t *testing.T) {
+	var calls []gvcCall
+	f := gvcFeature("restart", 0, 0, 0, false, nil, &calls)
+	inner := f.Negotiate
+	out := &strings.Builder{}
+	f.Negotiate = func(ctx context.Context, s *xmpp.Session, data interface{}) (xmpp.SessionState, io.ReadWriter, error) {
+		inner(ctx, s, data)
+		return 0, struct {
+			io.Reader
+			io.Writer
+		}{strings.NewReader(""), out}, nil
+	}
+	s, err, first := gvcClient(gvcHeader+`<stream:features><restart xmlns='urn:example:restart'/></stream:features>`, 0, f)
+	headers := strings.Count(first.String()+out.String(), "<stream:stream")
+	if err == nil && s.State()&xmpp.Ready != 0 && headers < 2 {
+		fmt.Printf("REPRODUCED negotiateFeatures: session reported Ready after a restarting voluntary feature without a new stream header (%d header(s) sent, calls %v)\n", headers, calls)
+		t.Fail()
+		return
+	}
+	fmt.Printf("NOT-REPRODUCED ready without restart: err=%v headers=%d\n", err, headers)
+}
